@@ -7,6 +7,8 @@ an `…_native.bv_decide.ax_*` axiom which the audit lists by name.
 -/
 import ElfioVerif.Basic
 import ElfioVerif.Gen.Funcs
+import ElfioVerif.Gen.SitesC09
+import ElfioVerif.Spec.Symbols
 import Std.Tactic.BVDecide
 
 namespace ElfioVerif
@@ -40,5 +42,48 @@ theorem conv32_bytes (a b c d : BitVec 8) :
 theorem conv64_bytes (a b c d e f g h : BitVec 8) :
     conv64 (h ++ g ++ f ++ e ++ d ++ c ++ b ++ a) true = a ++ b ++ c ++ d ++ e ++ f ++ g ++ h := by
   simp only [conv64]; bv_decide
+
+/-! ### C09: hash-function steps and the `ELF_ST_*` macro uses -/
+
+/-- one round of the generated `elf_hash` loop body is the gABI round -/
+theorem elf_hash_step (h : BitVec 32) (c : BitVec 8) :
+    (let h1 : BitVec 32 := (h <<< 4) + BitVec.setWidth 32 c
+     let g : BitVec 32 := h1 &&& 4026531840#32
+     let h2 := if (g != 0#32) = true then h1 ^^^ (g >>> 24) else h1
+     h2 &&& ~~~g) = Spec.sysvStep h c := by
+  simp only [Spec.sysvStep]
+  by_cases hg : ((h <<< 4) + BitVec.setWidth 32 c) &&& 4026531840#32 = 0#32
+  · simp [hg]
+  · simp [hg]
+
+/-- the gABI round in shift-free form (used for the arithmetic reading `sysvStepNat`) -/
+theorem sysvStep_arith (h : BitVec 32) (c : BitVec 8) :
+    Spec.sysvStep h c =
+      (((h * 16#32 + BitVec.setWidth 32 c) ^^^ ((((h * 16#32 + BitVec.setWidth 32 c) >>> 28)) * 16#32)) &&& 268435455#32) := by
+  simp only [Spec.sysvStep]
+  bv_decide
+
+theorem gnu_hash_step (h : BitVec 32) (c : BitVec 8) :
+    ((h <<< 5) + h) + BitVec.setWidth 32 c = Spec.gnuStep h c := by
+  simp only [Spec.gnuStep]
+  bv_decide
+
+theorem st_info_gen (b t : BitVec 8) : sym_st_info b t = Spec.stInfo b t := by
+  simp only [sym_st_info, Spec.stInfo]; bv_decide
+theorem st_info_str_gen (b t : BitVec 8) : sym_st_info_str b t = Spec.stInfo b t := by
+  simp only [sym_st_info_str, Spec.stInfo]; bv_decide
+theorem st_bind_gen32 (i : BitVec 8) : sym32_get_bind i = Spec.stBind i := by
+  simp only [sym32_get_bind, Spec.stBind]; bv_decide
+theorem st_bind_gen64 (i : BitVec 8) : sym64_get_bind i = Spec.stBind i := by
+  simp only [sym64_get_bind, Spec.stBind]; bv_decide
+theorem st_type_gen32 (i : BitVec 8) : sym32_get_type i = Spec.stType i := by
+  simp only [sym32_get_type, Spec.stType]; bv_decide
+theorem st_type_gen64 (i : BitVec 8) : sym64_get_type i = Spec.stType i := by
+  simp only [sym64_get_type, Spec.stType]; bv_decide
+/-- packing then unpacking keeps the low four bits of binding and type -/
+theorem st_bind_info (b t : BitVec 8) : Spec.stBind (Spec.stInfo b t) = b &&& 0xf := by
+  simp only [Spec.stBind, Spec.stInfo]; bv_decide
+theorem st_type_info (b t : BitVec 8) : Spec.stType (Spec.stInfo b t) = t &&& 0xf := by
+  simp only [Spec.stType, Spec.stInfo]; bv_decide
 
 end ElfioVerif
